@@ -176,6 +176,8 @@ class CallMixin:
             if obj.cls == "FileHandle":
                 return BoundV(obj, name)
             stub = self.stubs.get(f"{obj.cls}.{name}")
+            if isinstance(stub, dsl.External):
+                return BoundV(obj, stub)
             if stub is not None:
                 fn = self.sidecar_function(stub)
                 if getattr(stub, "is_property", False):
@@ -183,6 +185,8 @@ class CallMixin:
                 return BoundV(obj, fn)
             for cls in self.mro(obj.cls):
                 stub = self.stubs.get(f"{cls.name}.{name}")
+                if isinstance(stub, dsl.External):
+                    return BoundV(obj, stub)
                 if stub is not None:
                     fn = self.sidecar_function(stub)
                     if getattr(stub, "is_property", False):
@@ -732,6 +736,15 @@ class CallMixin:
             length = desc.lo + self.ctx.decide(desc.hi - desc.lo + 1)
             items = [self.fresh_resolved(desc.elem, f"{name}[{i}]", is_input) for i in range(length)]
             return TupleV(items) if desc.as_tuple else ListV(items)
+        if isinstance(desc, dsl.DictEntries):
+            size = desc.lo + self.ctx.decide(desc.hi - desc.lo + 1)
+            keys = [self.fresh_resolved(desc.key, f"{name}.key[{i}]", is_input) for i in range(size)]
+            for i in range(size):
+                for j in range(i):
+                    t = self.eq(keys[i], keys[j])
+                    self.ctx.assume(z3.Not(t) if not isinstance(t, bool) else z3.BoolVal(not t))
+            return DictV(entries=[(keys[i], self.fresh_resolved(desc.value, f"{name}.val[{i}]", is_input))
+                                  for i in range(size)])
         if isinstance(desc, dsl.FiniteSet):
             size = desc.lo + self.ctx.decide(desc.hi - desc.lo + 1)
             items = [self.fresh_resolved(desc.elem, f"{name}{{{i}}}", is_input) for i in range(size)]
